@@ -200,6 +200,19 @@ CHECKS = {
 }
 
 PENDING = {}
+COMMON_NOTE = ("Every run ends with a binding self-test: accepted trace lines are replayed to the trace specification with one recorded "
+               "field corrupted each and must all be rejected (exit 2 otherwise; fields and counts in the evidence under binding_selftest).")
+EXTRA_NOTE = {
+    "C02": "Neutrino NC rows are also taken at a propagator ratio r/2^16 (weights far below 1e-8) and compared after exact rescaling, "
+           "justified by the theorem C02_NeutrinoScaling checked by TLC at four ratios.",
+    "C11": "The arithmetic the combination is carried out with (ESFResult + - *, the numpy dot of exs.py) is specified in Result.tla and "
+           "bound by ~2 200 TLC-emitted programs executed by the real class; values and key sets are verdicts, dict order / error propagation "
+           "/ array sharing are conformance notes.",
+    "C14": "Part of the recorded plans is drawn by TLC itself (Emit_C14, plan space of MC_RunLoop on the real universe); a second batch "
+           "of histories runs on a nuclear target; the card spelling of an observable (F2 next to F2_total) is part of the model.",
+    "C16": "The grammar of observable names (Names.tla: every well-formed and ~270 malformed names) is bound in the same check; the "
+           "scale-variation switches are a lattice coordinate.",
+}
 
 
 def build():
@@ -209,7 +222,7 @@ def build():
             property_id=pid, quick_cmd=f"./vcheck {pid} quick", thorough_cmd=f"./vcheck {pid} thorough",
             evidence_file=f"evidence/{pid}.json", replay_cmd_template="./vcheck --replay {path}",
             engine="tlc+replay", level_claimed=dict(category=level, text=text, design_ref=ref),
-            level_note=note, technique=tech))
+            level_note=note + " " + COMMON_NOTE + (" " + EXTRA_NOTE[pid] if pid in EXTRA_NOTE else ""), technique=tech))
     props = [json.loads(l)["id"] for l in (ROOT / "properties.jsonl").read_text().splitlines() if l.strip()]
     na = [dict(property_id=p, reason=PENDING.get(p, "check not built yet in this round (planned: see DESIGN.md section 7); "
                                                   "not claimed until its machinery exists"))
